@@ -154,28 +154,42 @@ def solve_text(args):
     return idx, verdict, backend, total, model, tried, cross
 
 
-def discharge(obligations, thorough=False, workers=None):
-    """Solve all obligations in a process pool; fills verdict/backend/time/model on each."""
+_OBS = None      # obligations of the current `discharge` call, inherited by the forked pool workers (z3 terms cannot be pickled)
+
+
+def _solve_index(args):
+    i, thorough = args
+    ob = _OBS[i]
     import hashlib
-    jobs = []
-    for i, ob in enumerate(obligations):
-        text = to_smt2(ob)
-        ob.meta["vc_sha"] = hashlib.sha1(text.encode()).hexdigest()[:16]
-        jobs.append((i, text, ob.kind, thorough))
-    if not jobs:
+    text = to_smt2(ob)
+    sha = hashlib.sha1(text.encode()).hexdigest()[:16]
+    return solve_text((i, text, ob.kind, thorough)) + (sha,)
+
+
+def discharge(obligations, thorough=False, workers=None):
+    """Solve all obligations in a (forked) process pool; fills verdict/backend/time/model on each.  The SMT-LIB text of an
+    obligation is produced inside the worker that solves it."""
+    global _OBS
+    if not obligations:
         return
     workers = workers or WORKERS
-    if len(jobs) <= 2 or workers <= 1:
-        results = [solve_text(j) for j in jobs]
-    else:
-        results = []
-        with ProcessPoolExecutor(max_workers=workers) as ex:
-            futs = [ex.submit(solve_text, j) for j in jobs]
-            for f in as_completed(futs):
-                results.append(f.result())
-    for idx, verdict, backend, secs, model, tried, cross in results:
+    _OBS = obligations
+    try:
+        idxs = [(i, thorough) for i in range(len(obligations))]
+        if len(idxs) <= 2 or workers <= 1:
+            results = [_solve_index(a) for a in idxs]
+        else:
+            import multiprocessing as mp
+            results = []
+            with ProcessPoolExecutor(max_workers=workers, mp_context=mp.get_context("fork")) as ex:
+                for r in ex.map(_solve_index, idxs, chunksize=max(1, min(64, len(idxs) // (workers * 4) or 1))):
+                    results.append(r)
+    finally:
+        _OBS = None
+    for idx, verdict, backend, secs, model, tried, cross, sha in results:
         ob = obligations[idx]
         ob.verdict, ob.backend, ob.time, ob.model = verdict, backend, secs, model
         ob.meta["tried"] = tried
+        ob.meta["vc_sha"] = sha
         if cross:
             ob.meta["solver_disagreement"] = cross
